@@ -14,6 +14,7 @@ from .. import tlc, txnlib, sched_txn
 from ..tlc import MachineryError
 
 LEVEL = 'model_checking'
+SKIP_MC = bool(__import__('os').environ.get('VERIF_TXN_SKIP_MC'))
 
 SETUP_SIG = 'C19:sqlite-connect-setup-failure:pool-keeps-unconfigured-connection'
 EXPECTED_DEAD = {'LockReleaseDrop': 'SQLiteProvider.drop releases the lock only when the cache is in a transaction; that '
@@ -75,14 +76,14 @@ def scenarios(ctx, space):
     for name, s in sh.items():
         yield dict(name=name, threads=[[s, SECOND]], fault=None, policy=['seq'], sweep=True)
     # -- two threads --------------------------------------------------------------------------------------------
-    two = ['immediate', 'optimistic write', 'ddl'] if quick else list(sh)
+    two = ['immediate', 'optimistic write', 'ddl'] if quick else ['immediate', 'optimistic write', 'ddl', 'read-only', 'generator', 'raising']
     for n1 in two:
         for n2 in two:
             base = dict(name='%s || %s' % (n1, n2), threads=[[sh[n1]], [sh[n2]]], fault=None)
             yield dict(base, policy=['seq'], sweep=not quick, preempt=True, sweep_preempt=quick and n1 == 'immediate')
     # -- three threads: seeded schedules ---------------------------------------------------------------------------
     names = list(sh)
-    for i in range(6 if quick else 150):
+    for i in range(6 if quick else 60):
         trio = [names[rng.randrange(len(names))] for _ in range(3)]
         yield dict(name=' || '.join(trio), threads=[[sh[t]] for t in trio], fault=None, policy=['rand', ctx.seed * 1000 + i],
                    sweep=not quick or i < 2, rand_fault=True)
@@ -110,6 +111,8 @@ def run(ctx):
                 ('liveness-3', txnlib.mc_cfg(['TypeOK'], ['LockEventuallyFree1', 'Terminates'], spec='FairSpec1',
                                              NActors=3, NThreads=3, Forms='{"cm"}', Kinds='{"imm"}', ExcKinds='{}',
                                              MaxNest=1, MaxWrites=1, MaxOps=1, MaxRetry=0), False)]
+    if SKIP_MC:
+        runs = []      # development aid (mutant runs): the TLC runs on the spec do not depend on pony
     states = transitions = 0
     mc = {}
     for name, cfg, cov in runs:
@@ -126,6 +129,8 @@ def run(ctx):
     items = []      # (scenario, outcome)
     kinds_hit = set()
     for sc in scenarios(ctx, space):
+        if sum(1 for _, o in items if o['stuck'] and 'within' in o['stuck']) >= 3:
+            break                 # workers block outside scheduling points: reported below, do not wait for every scenario
         base = execute(ctx, sc)
         items.append((sc, base))
         n = base['calls']
@@ -140,13 +145,13 @@ def run(ctx):
         if sc.get('preempt'):
             steps = len(base['schedule'])
             first = base['schedule'].count(1)
-            stride = max(1, first // (3 if quick else 12))
+            stride = max(1, first // (3 if quick else 6))
             for s in range(2, first + 1, stride):
                 p = dict(sc, policy=['switch', [s]])
                 o = execute(ctx, p)
                 items.append((p, o))
                 if sc.get('sweep_preempt') or not quick:
-                    kk = range(1, o['calls'] + 1, 3 if quick else 1)
+                    kk = range(1, o['calls'] + 1, 3 if quick else 2)
                     for k in kk:
                         f = dict(p, fault=[k, 'fail'])
                         items.append((f, execute(ctx, f)))
